@@ -551,11 +551,20 @@ def run_dated(case):
                     if kk not in model or pol is True or pol is None:
                         model[kk] = e
             # ---- memory and disk, by label
-            for what, ds in (("full_ds", h.full_ds),
-                             ("load_ds", x.load_ds(dname, engine=engine))):
+            with under_test("full_ds / load_ds"):
+                views = (("full_ds", h.full_ds),
+                         ("load_ds", x.load_ds(dname, engine=engine)))
+            for what, ds in views:
                 for (i, b), e in model.items():
                     lab = np.datetime64(DATES[i], "ns")
-                    sel = ds.sel(d=lab, b=b)
+                    try:
+                        sel = ds.sel(d=lab, b=b)
+                    except KeyError:
+                        core.violated(
+                            "harvested-point-lost",
+                            f"step {k}: {what} has no entry for "
+                            f"({DATES[i]}, {b}) although it was harvested; "
+                            f"d = {ds['d'].values.tolist() if 'd' in ds else '-'}")
                     wnum, wtxt = dated_fn(DATES[i], b, e)
                     gnum = float(sel["num"].values)
                     gtxt = sel["txt"].values.item()
